@@ -63,3 +63,8 @@ def clean_env(extra=None):
     if extra:
         e.update(extra)
     return e
+
+
+def workers():
+    """size of replay pools; VF_WORKERS lowers it on a loaded machine"""
+    return int(os.environ.get("VF_WORKERS", "16") or 16)
